@@ -85,7 +85,7 @@ def units(tier, seed):
     for i in range(max(2, n // 400)):
         u.append({'k': 'repo', 'i': i, 'n': 3})
     u.append({'k': 'odd'})
-    for fmt in ('gz', 'bz2', 'lzma', 'xz'):
+    for fmt in ('gz', 'bz2', 'lzma', 'xz', 'plain'):
         u.append({'k': 'strayman', 'fmt': fmt})
     for i in range(n // 100):
         u.append({'k': 'libhist', 'i': i, 'n': 8})
@@ -433,7 +433,8 @@ def damaged_variants(fmt):
 def exec_strayman(ctx, case):
     def make(base):
         plant(base, case.get('top', ''))
-        with open(os.path.join(base, case['where'], 'Manifest.' + case['fmt']), 'wb') as f:
+        name = 'Manifest' if case['fmt'] == 'plain' else 'Manifest.' + case['fmt']
+        with open(os.path.join(base, case['where'], name), 'wb') as f:
             f.write(bytes.fromhex(case['raw']))
     battery(ctx, make, case, 'strayman')
 
@@ -441,8 +442,19 @@ def exec_strayman(ctx, case):
 def run_strayman(u, ctx):
     """A file that merely has a compressed-Manifest name (not referenced by any
     Manifest) holding damaged compressed data, in a sub-directory."""
-    for how, raw in damaged_variants(u['fmt']):
-        for where in ('sub', 'sub/f', ''):
+    if u['fmt'] == 'plain':
+        # a file that merely is called Manifest, in a directory where nothing
+        # references it (and where a profile may want to create one)
+        variants = [('binary', b'\xff\xfe\x00binary \x80\x81'),
+                    ('latin1', 'DATA caf\xe9 0\n'.encode('latin-1')),
+                    ('not-a-manifest', b'this is not a Manifest\n'),
+                    ('valid-empty', b''), ('valid', b'DATA inner 1\n')]
+        wheres = ('sub', 'sub/f')
+    else:
+        variants = damaged_variants(u['fmt'])
+        wheres = ('sub', 'sub/f', '')
+    for how, raw in variants:
+        for where in wheres:
             ctx.count('strayman:' + how.split('@')[0])
             exec_strayman(ctx, {'kind': 'strayman', 'fmt': u['fmt'], 'how': how,
                                 'where': where, 'raw': raw.hex(),
